@@ -47,6 +47,9 @@ N(l) == NM("", l)
 \* family: element names (case folding, snake-casing, namespace prefixes create collisions)
 cNames == [names |-> {N(<<"a">>), N(<<"B">>), N(<<"a", "-", "b">>), NM("ns", <<"b">>)}, anames |-> {}, avals |-> {}, texts |-> {<<"v">>},
            maxattrs |-> 0, comments |-> FALSE]
+\* family: siblings whose keys coincide only after key folding (three spellings of one key; >= 4 siblings need MaxElems >= 5)
+cSibs == [names |-> {N(<<"a", "-", "b">>), N(<<"a", "_", "b">>), N(<<"A", "-", "b">>)}, anames |-> {}, avals |-> {}, texts |-> {<<"v">>},
+          maxattrs |-> 0, comments |-> FALSE]
 \* family: attributes (ordered choices, folding collisions, xmlns declarations, values to cast / escape / trim)
 cAttrs == [names |-> {N(<<"a">>)}, anames |-> {N(<<"x">>), N(<<"X">>), N(<<"x", "-", "y">>), NM("xmlns", <<"n">>)},
            avals |-> {<<"7">>, <<" ", "&">>}, texts |-> {<<"v">>}, maxattrs |-> 2, comments |-> FALSE]
